@@ -9,7 +9,8 @@ from .. import strategies as S
 PROPERTY = "C15"
 LEVEL = "exploration"
 RULE = ("Generated histories (op lists: step*n, add inside the box, unsorted removal between steps and from inside the "
-        "additional_forces / post_timestep_modifications callbacks, explicit tree update) of 1-60 "
+        "additional_forces / post_timestep_modifications callbacks, explicit tree update, restart from sim.copy() / pickle / "
+        "file at any point with callbacks re-attached) of 1-60 "
         "free-streaming particles (leapfrog; gravity none or tree with G=0 so that the motion is exactly predictable; "
         "collisions none / tree / direct with the merge resolver) with |v dt| up to 3.5 root boxes per step, box sizes "
         "1 / 10 / 3.7 / 12.539722611734991, 1-3 root boxes per axis, boundaries periodic / shear / open.  Oracles: a "
@@ -35,7 +36,8 @@ ASSUMPTIONS = [
     "image of a particle in shear-periodic boxes: (x - n Lx, y + 3/2 n OMEGA Lx t mod Ly, vy + 3/2 n OMEGA Lx) "
     "(docs/boundaryconditions.md, Rein & Liu 2012)",
 ]
-CLASSES = ["boundary_hist/removed_in_callback", "boundary_hist/collision_search_walks", "boundary_hist/collision/tree", "boundary_hist/collision/linetree",
+CLASSES = ["boundary_hist/restore/copy", "boundary_hist/restore/pickle", "boundary_hist/restore/file",
+           "boundary_hist/restore_with_pending_removal", "boundary_hist/removed_in_callback", "boundary_hist/collision_search_walks", "boundary_hist/collision/tree", "boundary_hist/collision/linetree",
            "boundary_hist/boundary/periodic", "boundary_hist/boundary/shear", "boundary_hist/boundary/open",
            "boundary_hist/tree/gravity", "boundary_hist/tree/collision", "boundary_hist/tree/none",
            "boundary_hist/crossed_root", "boundary_hist/crossed_box", "boundary_hist/multi_box_step",
@@ -46,6 +48,8 @@ CLASSES = ["boundary_hist/removed_in_callback", "boundary_hist/collision_search_
 
 BOXES = [1.0, 10.0, 3.7, 12.539722611734991]
 LAYOUTS = [(1, 1, 1), (2, 1, 1), (2, 2, 1), (1, 2, 2), (2, 2, 2), (3, 1, 1), (1, 3, 2), (3, 2, 1)]
+RESTORES = ["copy", "pickle", "file"]
+KEY_RESTORE = "restore-flagged-particle"     # loading a tree simulation that holds a particle flagged for removal
 KEY_BORDER = "tree-border-reinsert"
 KEY_UPPER = "rootbox-upper-face"
 
@@ -132,14 +136,21 @@ def history(draw, border=False):
     nops = draw(st.integers(2, 10))
     h = 1000
     for _ in range(nops):
-        kind = draw(st.sampled_from(["step", "step", "step", "add", "remove", "remove_cb", "walk"]))
+        kind = draw(st.sampled_from(["step", "step", "step", "add", "remove", "remove_cb", "walk", "restore"]))
         if kind == "step":
             ops.append(["step", draw(st.sampled_from([1, 1, 2, 3, 7])), draw(st.booleans())])
+            if collision != "none" and draw(st.integers(0, 3)) == 0:    # a restart directly after a step with mergers
+                ops[-1][2] = False
+                ops.append(["restore", draw(st.sampled_from(RESTORES))])
         elif kind == "add":
             h += 1
             ops.append(["add", draw(particle(L, L0, dt, h, border, radius))])
         elif kind == "remove":
             ops.append(["remove", draw(st.integers(0, 1000))])
+            if draw(st.integers(0, 2)) == 0:    # a restart directly after a removal that is still pending in the tree
+                ops.append(["restore", draw(st.sampled_from(RESTORES))])
+        elif kind == "restore":
+            ops.append(["restore", draw(st.sampled_from(RESTORES))])
         elif kind == "remove_cb":
             # unsorted removal issued from inside a callback during the next step: still pending when the collision
             # search runs ("forces" = additional_forces, mid-step; "post" = post_timestep_modifications)
@@ -502,6 +513,15 @@ def run_history(case, ctx):
     def poststep(sp):
         if pending and pending[0][1] == "post":
             remove_now()
+
+    def attach():
+        """(Re-)attach the callbacks by name, as a user restarting from a copy / pickle / file would."""
+        sim.additional_forces = midstep
+        sim.post_timestep_modifications = poststep
+        if coll_tree:
+            sim.collision_resolve = resolver
+        elif cfg["collision"] != "none":
+            sim.collision_resolve = "merge"
     sim.additional_forces = midstep
     sim.post_timestep_modifications = poststep
     # the tree as the collision search uses it: walked from inside the resolver on the first collision of a step (before
@@ -655,6 +675,38 @@ def run_history(case, ctx):
             ctx.cls("user_removed")
             if event_at is None:
                 event_at = steps_done
+        elif kind == "restore":
+            import os
+            import pickle
+            import rebound
+            before = R.snapshot(sim)
+            if np.isnan(before["y"]).any() and tree_cfg and ctx.finding_open(KEY_RESTORE):
+                ctx.excluded(KEY_RESTORE)       # restoring with a flag-only removal pending: known finding, see report
+                continue
+            try:
+                if op[1] == "copy":
+                    new = sim.copy()
+                elif op[1] == "pickle":
+                    new = pickle.loads(pickle.dumps(sim))
+                else:
+                    path = os.path.join(ctx.scratch, "c15_restore.bin")
+                    if os.path.exists(path):
+                        os.unlink(path)
+                    sim.save_to_file(path)
+                    new = rebound.Simulation(path)
+                    os.unlink(path)
+            except RuntimeError as e:
+                raise Violation("restoring the simulation (%s) failed: %s" % (op[1], e))
+            sim = new
+            attach()
+            after = R.snapshot(sim)
+            # the restored object holds the same particles (flagged ones included: they leave at the next tree update)
+            if len(after) != len(before) or any(not c13.same_row(before[i], after[i]) for i in range(len(before))):
+                raise Violation("restored simulation (%s) does not hold the same particles" % op[1],
+                                N_before=len(before), N_after=len(after))
+            ctx.cls("restore/" + op[1])
+            if np.isnan(before["y"]).any():
+                ctx.cls("restore_with_pending_removal")
         elif kind == "remove_cb":
             # (with tree gravity and a DIRECT search the flagged particle (y = NaN) used to be reported as colliding with
             # every other particle: fixed in /repo, regression case corpus/C15/fixed-direct-search-flagged-particle.json)
